@@ -53,9 +53,9 @@ def bounds(tier):
 
 
 def jobs(tier, seed):
-    out = [("superposition", "CFG3"), ("superposition", "CFG_SPIN"), ("subsets", "CFG3"), ("subsets", "CFG4"), ("homogeneity", "CFG3"), ("fractions", "CFG3", 2), ("fraction_paths", "CFG3"), ("fraction_paths", "CFG4")]
+    out = [("superposition", "CFG3"), ("superposition", "CFG_SPIN"), ("subsets", "CFG3"), ("subsets", "CFG4"), ("homogeneity", "CFG3"), ("fractions", "CFG3", 2), ("fractions", "CFG3", 3), ("fraction_paths", "CFG3"), ("fraction_paths", "CFG4")]
     if tier == "thorough":
-        out += [("superposition", "CFG_HALF"), ("subsets", "CFG_SPIN"), ("homogeneity", "CFG_SPIN"), ("fractions", "CFG3", 3), ("fractions", "CFG_SPIN", 2)]
+        out += [("superposition", "CFG_HALF"), ("subsets", "CFG_SPIN"), ("homogeneity", "CFG_SPIN"), ("fractions", "CFG_SPIN", 2), ("fractions", "CFG_SPIN", 3)]
     return out
 
 
@@ -206,15 +206,26 @@ def job_fractions(ss, cfg, nmc):
         base, gbase = results[None]
         tot = T.add(*[v for v in base.values()])
         # the model integral must be positive
-        ss.prove("ff.sum_rule[%s,nmc=%d]" % (cfg, nmc), F, far(tot, T.ONE, 0), key="ff.sum_rule", payload=pay, timeout=120,
-                 describe="sum_i FF_i + sum_{i<j} FF_ij = 1 for all couplings", want_smt2=True)
+        # sum of fractions = N / D: when N - D expands to the zero polynomial the identity is decided by normal form
+        # (recorded through the same abstraction query, which is then trivial); otherwise z3 decides N != D
+        Nn, Dd = T.numden(tot)
+        memo_ = {}
+        Pz = T._poly_of(T.sub(Nn, Dd), 400000, memo_)
+        if Pz is not None and len(Pz) == 0:
+            from .common import prove_close_poly
+
+            prove_close_poly(ss, "ff.sum_rule[%s,nmc=%d]" % (cfg, nmc), Nn, Dd, Fraction(1, 10**12), 2, key="ff.sum_rule", payload=pay, timeout=120, limit=400000,
+                             describe="sum_i FF_i + sum_{i<j} FF_ij = 1 for all couplings (numerator - denominator is the zero polynomial)")
+        else:
+            ss.prove("ff.sum_rule[%s,nmc=%d]" % (cfg, nmc), F, far(tot, T.ONE, 0), key="ff.sum_rule", payload=pay, timeout=120,
+                     describe="sum_i FF_i + sum_{i<j} FF_ij = 1 for all couplings", want_smt2=True)
         for batch in (1, 2):
             for k, v in results[batch][0].items():
                 ss.prove("ff.batch_independent[%s,nmc=%d,b=%s,%s]" % (cfg, nmc, batch, k), F, far(v, base[k], 0), key="ff.batch_independent", payload=_pay("fractions", amp, cartesian=True, cfg=cfg, nmc=nmc, batch=batch), timeout=60,
                          describe="fit fractions do not depend on the batch size")
         # gradients are the derivatives of the fractions (C09 ii): checked for the first two parameters
         names = list(amp.vm.trainable_vars)
-        for k, v in list(base.items())[:3]:
+        for k, v in list(base.items()):
             g = gbase[k]
             gts = [term_of(x) for x in (g.arr.reshape(-1) if hasattr(g, "arr") else np.asarray(g, dtype=object).reshape(-1))]
             for pi_, pn in enumerate(names[:3]):
@@ -226,7 +237,7 @@ def job_fractions(ss, cfg, nmc):
                     d = _d_dx(v, leaf.name, leaf.D)
                 else:
                     d = T.diff(v, x.t)
-                ss.prove("ff.gradient[%s,nmc=%d,%s,%s]" % (cfg, nmc, k, pn), F, far(gts[pi_], d, 0), key="ff.gradient", payload=pay, timeout=120,
+                ss.prove("ff.gradient[%s,nmc=%d,%s,%s]" % (cfg, nmc, k, pn), F, far(gts[pi_], d, 0), key="ff.gradient", payload=pay, timeout=120, presample=10,
                          describe="the gradient returned with a fit fraction is its derivative (quotient rule)")
         ss.witness("ff.reach[%s,%d]" % (cfg, nmc), F)
         ss.mutant("ff.mutant[%s,%d]" % (cfg, nmc), F, far(tot, T.const(2, "R"), 0))
@@ -265,6 +276,25 @@ def job_fraction_paths(ss, cfg):
                 ss.prove("ff.paths.no_grad[%s,%s]" % (cfg, k), F, far(b[k2], v, 0), key="ff.paths", payload=pay, timeout=60, describe="cal_fitfractions_no_grad = cal_fitfractions")
             if k in c:
                 ss.prove("ff.paths.class[%s,%s]" % (cfg, k), F, far(c[k], v, 0), key="ff.paths", payload=pay, timeout=60, describe="FitFractions class = cal_fitfractions")
+        # the gradients the class returns (used for the uncertainties of the fractions, C09) are the derivatives of its fractions,
+        # for single and interference fractions alike
+        names = list(amp.vm.trainable_vars)
+        for k, v in c.items():
+            if k not in g3:
+                continue
+            g = g3[k]
+            gts = [term_of(x) for x in (g.arr.reshape(-1) if hasattr(g, "arr") else np.asarray(g, dtype=object).reshape(-1))]
+            for pi_, pn in enumerate(names[:3]):
+                x = th[pn]
+                if x.ang is not None:
+                    from .C07 import _d_dx
+
+                    leaf = list(x.ang.lin)[0]
+                    d = _d_dx(v, leaf.name, leaf.D)
+                else:
+                    d = T.diff(v, x.t)
+                ss.prove("ff.class_gradient[%s,%s,%s]" % (cfg, k, pn), F, far(gts[pi_], d, 0), key="ff.gradient", payload=pay, timeout=120, presample=10,
+                         describe="FitFractions.get_frac_grad: the gradient returned with a fraction is its derivative (single and interference fractions)")
     finally:
         ff.np = old
 
